@@ -32,6 +32,19 @@ func C03(r *report.Report, tier string) {
 		}
 		r.Note("reduction cross-check %s: %d executions with caching, %d without, same %d outcomes", h.Name, a.Execs, b.Execs, len(a.Outcomes))
 	}
+	// conformance of the scaled constant: the default execution of every harness with the real
+	// lockmap.NSHARD = 65537 must give the same observable outcome as with the scaled value 13
+	for _, h := range hs {
+		h2 := h
+		h2.NShard = 65537
+		ra, rb := exploreArg{Harness: "nfs.conc", Arg: mustJSON(h), Points: points, Single: true}, exploreArg{Harness: "nfs.conc", Arg: mustJSON(h2), Points: points, Single: true}
+		va, _ := runExplore(mustJSON(ra))
+		vb, _ := runExplore(mustJSON(rb))
+		if keysOf(va.(*exploreRes).Outcomes) != keysOf(vb.(*exploreRes).Outcomes) || fmt.Sprint(va.(*exploreRes).Sample) != fmt.Sprint(vb.(*exploreRes).Sample) {
+			fatal("harness %s behaves differently with lockmap.NSHARD=65537 and with the scaled value 13", h.Name)
+		}
+	}
+	r.Note("NSHARD conformance: default execution of all %d harnesses identical (outcome and schedule) with 65537 and 13 shards", len(hs))
 	for _, h := range hs {
 		if timeUp() {
 			r.Exhaustive = false
